@@ -118,7 +118,7 @@ def oracle_survey(ctx, res, inp):
     name, code, si, mdl = res.name, res.code, res.si, Fraction(float(res.mdl))
     facts = {"n_vis": 0, "hidden_spatial": 0, "hidden_off": 0, "hidden_temporal": 0, "hidden_inactive": 0,
              "detected_units": 0, "undetected_nonzero_units": 0, "at_mdl": 0, "shift_below_minus_100": False,
-             "shift_just_above_minus_100": False, "rounded_sum": False}
+             "shift_just_above_minus_100": False, "rounded_sum": False, "own_probs": set(), "first_rolls": 0}
 
     def V(sig, what, extra=None):
         d = dict(inp)
@@ -158,6 +158,24 @@ def oracle_survey(ctx, res, inp):
             if first != cov_after:
                 V("C05:sticky:spatial-coverage-rerolled", "stored spatial coverage changed over the emission's life",
                   {"emission": n, "first": first, "now": cov_after})
+        # -- every coverage outcome is the emission's OWN roll: the harness records each Bernoulli draw
+        #    with its probability argument; what is stored at the first check must be the draw made in that
+        #    very call with this emission's probability for this method (probability 0 -> 0, 1 -> 1)
+        own_p = float(em._tech_spat_cov_probs[name])
+        if act and in_site:
+            facts["own_probs"].add(own_p)
+        if sp is not None and cov_before is None:
+            d = {"emission": n, "emission_number": em._emissions_id, "own_probability": own_p,
+                 "draws_in_call": drew, "draw_probability": sp[2], "draw_result": sp[3], "stored": cov_after}
+            if drew != 1 or sp[2] != own_p or cov_after != sp[3]:
+                V("C05:coverage:stored-outcome-is-not-the-emissions-own-roll",
+                  "the spatial-coverage outcome stored for (emission, method) is not the Bernoulli draw made at its "
+                  "first check with this emission's own coverage probability", d)
+            facts["first_rolls"] += 1
+        if cov_after is not None and ((own_p == 0.0 and cov_after != 0) or (own_p == 1.0 and cov_after != 1)):
+            V("C05:coverage:outcome-impossible-for-own-probability",
+              "stored spatial coverage contradicts the emission's own coverage probability (0 -> 0, 1 -> 1)",
+              {"emission": n, "emission_number": em._emissions_id, "own_probability": own_p, "stored": cov_after})
         # -- independent visibility
         t = rec.temporal.get(n)
         vis = bool(act and in_site and cov_after == 1 and emitting and t == 1)
@@ -334,8 +352,9 @@ def oracle_survey(ctx, res, inp):
           "all spatial rolls 0 / MDL above the site's total rate, yet the survey measured, tagged or recorded",
           {"zero_coverage": zero_cov, "unreachable_mdl": unreachable, "measured": float(sm), "tags": rec.tags})
     # -- zero coverage method: nothing at all may happen
-    sp_prob = scene.world.methods[name]["coverage"]["spatial"]
-    if sp_prob == 0 and (sm != 0 or rec.tags or rec.sensor_records or rec.tagged or returned):
+    # (the probability that counts is the emission's own: sites can override the method's coverage)
+    if in_scope and all(float(scene.em_obj[n]._tech_spat_cov_probs[name]) == 0.0 for n in in_scope) and (
+            sm != 0 or rec.tags or rec.sensor_records or rec.tagged or returned):
         V("C05:zero-coverage:method-acted", "a method with spatial coverage 0 measured / tagged / recorded something",
           {"measured": float(sm), "tags": rec.tags})
     return facts
@@ -405,6 +424,9 @@ def component_stage(ctx):
                         ctx.count("surveys-with:" + kf)
                 if res.rec.tags:
                     ctx.count("surveys-with:tags")
+                ctx.count("coverage-first-rolls-checked-against-own-probability", facts["first_rolls"])
+                for pr in facts["own_probs"]:
+                    ctx.count("surveys-with:own-spatial-probability=%s" % pr)
                 if res.rec.sensor_records:
                     ctx.count("surveys-with:sensor-detection-records")
                 if any(s and s[1] == 0 for s in res.rec.spatial.values()):
@@ -514,6 +536,7 @@ def flag_stage(ctx):
 EXPECTED_WRITERS = {("virtual_world/emission_types/emission.py", "__init__", "assign"),
                     ("virtual_world/emission_types/emission.py", "check_spatial_cov", "setitem")}
 EXPECTED_CALLERS = {("virtual_world/component.py", "get_detectable_emissions")}
+EXPECTED_SHARED = {("virtual_world/emission_types/emission.py", "Emission", "EMIS_SUMMARY_DTYPES")}
 
 
 def coverage_writers_table(ctx):
@@ -562,6 +585,34 @@ def coverage_writers_table(ctx):
                     visit(ch, fn)
 
             visit(tree, "<module>")
+    # class-level mutable containers of the emission classes: state shared by all emissions of the
+    # process (a per-emission outcome kept there is not the emission's own)
+    shared = set()
+    edir = os.path.join(shim.REPO_SRC, "virtual_world", "emission_types")
+    for f in sorted(os.listdir(edir)):
+        if not f.endswith(".py"):
+            continue
+        rel = os.path.join("virtual_world", "emission_types", f)
+        for node in ast.walk(ast.parse(open(os.path.join(edir, f)).read())):
+            if isinstance(node, ast.ClassDef):
+                for st in node.body:
+                    if isinstance(st, (ast.Assign, ast.AnnAssign)) and st.value is not None:
+                        v = st.value
+                        mutable = isinstance(v, (ast.Dict, ast.List, ast.Set, ast.DictComp, ast.ListComp, ast.SetComp)) or (
+                            isinstance(v, ast.Call) and isinstance(v.func, ast.Name)
+                            and v.func.id in ("dict", "list", "set", "defaultdict", "OrderedDict", "Counter"))
+                        if mutable:
+                            tg = st.targets if isinstance(st, ast.Assign) else [st.target]
+                            for t in tg:
+                                if isinstance(t, ast.Name):
+                                    shared.add((rel, node.name, t.id))
+    ctx.extra["emission_class_level_containers"] = sorted(map(list, shared))
+    name = "table: class-level mutable containers of the emission classes"
+    ctx.obligations.append(name)
+    if shared == EXPECTED_SHARED:
+        ctx.discharged.append(name)
+    else:
+        ctx.broke(name, "found %s, expected %s" % (sorted(shared), sorted(EXPECTED_SHARED)))
     callers = {c for c in callers if not c[0].startswith("testing")}
     ctx.extra["coverage_store_writers"] = sorted(map(list, writers))
     ctx.extra["spatial_check_callers"] = sorted(map(list, callers))
@@ -629,6 +680,26 @@ def wholerun_config(rng, with_fix=False):
     return cfg
 
 
+def wholerun_prior_configs(rng):
+    """(main, prior): the same generated world twice with the SAME method names; `prior` surveys with full
+    coverage, `main` has a baseline and a program whose methods all have spatial coverage 0.  The worker
+    runs `prior` first and `main` afterwards in the same process (emission ids coincide, probabilities differ)."""
+    import copy
+    from harness import wholerun as W
+
+    cfg = W.make_config(rng, n_sims=1, ndays=rng.choice([120, 200]))
+    names = ["OGI", "AIR", "OGI_FU"]
+    main, prior = copy.deepcopy(cfg), copy.deepcopy(cfg)
+    main["methods"] = {m: dict(copy.deepcopy(cfg["methods"][m]), spatial=0.0) for m in names}
+    prior["methods"] = {m: dict(copy.deepcopy(cfg["methods"][m]), spatial=1.0, temporal=1.0) for m in names}
+    main["programs"] = [{"name": "P_none", "methods": []}, {"name": "P_Z", "methods": names}]
+    main["baseline"] = "P_none"
+    prior["programs"] = [{"name": "Q_none", "methods": []}, {"name": "Q_full", "methods": names}]
+    prior["baseline"] = "Q_none"
+    main["pre_run_hook"] = TRACE_HOOK
+    return main, prior
+
+
 def trace_survey_oracle(events, methods_cfg):
     """the per-survey clauses of C05 on the surveys of a real simulation, from the events of
     harness/adapters/sensor_trace.py plus the worker's own "tag" / "detect" events.
@@ -636,7 +707,7 @@ def trace_survey_oracle(events, methods_cfg):
     F = []
     stats = {"surveys": 0, "cov_calls": 0, "sticky_reuse": 0, "tags": 0, "detects": 0, "visible": 0,
              "hidden_spatial": 0, "hidden_off": 0, "hidden_temporal": 0, "detected_units": 0,
-             "undetected_nonzero_units": 0, "surveys_with_visible": 0}
+             "undetected_nonzero_units": 0, "surveys_with_visible": 0, "first_rolls": 0}
     stored = {}     # (k, method) -> outcome fixed by the first roll
     pend_cov = {}   # method -> cov entries since its last report
     pend_t = {}     # (method, k) -> temporal outcome
@@ -652,9 +723,22 @@ def trace_survey_oracle(events, methods_cfg):
         if kind == "c05-error":
             add("C05:wholerun:trace-wrapper-error", "observation wrapper raised", {"error": e[1]})
         elif kind == "c05cov":
-            (_, day, m, site, eqg, comp, k, eid, rep, start, rate, before, after, emitting) = e
+            (_, day, m, site, eqg, comp, k, eid, rep, start, rate, before, after, emitting, own_p, draws) = e
             stats["cov_calls"] += 1
             key = (k, m)
+            if before is None:
+                stats["first_rolls"] += 1
+                if len(draws) != 1 or draws[0][0] != own_p or draws[0][1] != after:
+                    add("C05:wholerun:coverage:stored-outcome-is-not-the-emissions-own-roll",
+                        "the spatial-coverage outcome stored at the first check is not the Bernoulli draw made in that "
+                        "call with the emission's own coverage probability",
+                        {"day": day, "method": m, "emission": [site, eqg, comp, eid, rep, start],
+                         "own_probability": own_p, "draws": draws, "stored": after})
+            if after is not None and ((own_p == 0.0 and after != 0) or (own_p == 1.0 and after != 1)):
+                add("C05:wholerun:coverage:outcome-impossible-for-own-probability",
+                    "stored spatial coverage contradicts the emission's own coverage probability",
+                    {"day": day, "method": m, "emission": [site, eqg, comp, eid, rep, start],
+                     "own_probability": own_p, "stored": after})
             if key in stored:
                 stats["sticky_reuse"] += 1
                 if before != stored[key] or after != stored[key]:
@@ -684,7 +768,7 @@ def trace_survey_oracle(events, methods_cfg):
             covs = pend_cov.pop(m, [])
             vis = []
             for c in covs:
-                (_, cday, _, csite, ceqg, ccomp, k, eid, rep, start, rate, before, after, emitting) = c
+                (_, cday, _, csite, ceqg, ccomp, k, eid, rep, start, rate, before, after, emitting) = c[:14]
                 if csite != site or cday != day:
                     add("C05:wholerun:scope:emission-of-another-site-examined",
                         "a survey examined an emission outside the surveyed site", {"survey": [day, m, site], "cov": c})
@@ -820,13 +904,29 @@ def compare_with_baseline(res, prog):
 def wholerun_one(args):
     from harness import wholerun as W
 
+    import shutil
+    import tempfile
+
     seed, with_fix = args
-    cfg = wholerun_config(random.Random(seed), with_fix)
-    res = W.run_config(cfg, debug=True, processes=1, trace=True)
+    prior_root = None
+    if with_fix == "prior":
+        cfg, prior = wholerun_prior_configs(random.Random(seed))
+        prior_root = tempfile.mkdtemp(prefix="ldarverif_c05prior_")
+        prior["processes"] = 1
+        files, _, _ = W.materialize(prior, prior_root)
+        cfg["c05_prior_files"] = files
+    else:
+        cfg = wholerun_config(random.Random(seed), with_fix)
+    try:
+        res = W.run_config(cfg, debug=True, processes=1, trace=True)
+    except BaseException:
+        if prior_root:
+            shutil.rmtree(prior_root, ignore_errors=True)
+        raise
     try:
         out = {"seed": seed, "with_fix": with_fix, "rc": res.rc, "log": res.log[-1500:] if res.rc else "",
                "programs": {}, "small_thr": None}
-        if with_fix:
+        if with_fix and with_fix != "prior":
             out["small_thr"] = cfg["methods"]["ZF_FIX"]["follow_up"]["rolling"]["small_window_threshold"]
         if res.rc == 0:
             for p in cfg["programs"]:
@@ -845,9 +945,13 @@ def wholerun_one(args):
                     "fuq_events": sum(1 for e in events if e and e[0] == "fuq"),
                     "nonzero_reports": sum(1 for e in events if e and e[0] == "c05rep" and e[7] != 0),
                     "findings": findings, "stats": stats}
+        if prior_root:
+            out["prior_events"] = sum(len(t["events"]) for t in res.trace if t.get("prog") == "Q_full")
         return out
     finally:
         res.cleanup()
+        if prior_root:
+            shutil.rmtree(prior_root, ignore_errors=True)
 
 
 def wholerun_oracle(ctx):
@@ -859,7 +963,10 @@ def wholerun_oracle(ctx):
     n = ctx.pick(2, 10)
     # every other configuration with a stationary screening method; the first one with the shipped
     # default small-window threshold 0.0 (whole-run reproduction of the known finding)
-    jobs = [(ctx.rng.randrange(1 << 30), "default" if i == 0 else i % 2 == 0) for i in range(n)]
+    # every third configuration: the zero-coverage world is simulated in a worker process that has already
+    # simulated the same world with the same method names at full coverage
+    jobs = [(ctx.rng.randrange(1 << 30), "default" if i == 0 else "prior" if i % 3 == 1 else i % 2 == 0)
+            for i in range(n)]
     with ThreadPoolExecutor(max_workers=min(n, max(1, (os.cpu_count() or 2) // 2), 8)) as ex:
         outs = list(ex.map(wholerun_one, jobs))
     for out in outs:
@@ -905,6 +1012,11 @@ def wholerun_oracle(ctx):
             if st["surveys_with_visible"]:
                 ctx.nontrivial.add(("wholerun-surveys", prog, out["seed"] % 5, min(st["tags"], 3), min(st["detects"], 3),
                                     min(st["hidden_spatial"], 3), min(st["hidden_temporal"], 3), min(st["hidden_off"], 3)))
+        if out["with_fix"] == "prior":
+            ctx.count("wholerun:configs-zero-coverage-after-full-coverage-in-same-process")
+            if not out.get("prior_events"):
+                raise core.InfraError("whole-run: the prior full-coverage simulation left no trace")
+            continue
         rn = out["programs"]["P_N"]
         if rn["n_diffs"]:
             ctx.count("wholerun:configs-where-normal-program-differs-from-baseline")
